@@ -185,3 +185,27 @@ def strip_shape_wrappers(e):
         else:
             break
     return e
+
+
+def innermost_stmt(root, node):
+    """the innermost statement under `root` that contains `node` (for a `with` item or an `if` test: that compound statement)"""
+    best = None
+    for s_ in ast.walk(root):
+        if isinstance(s_, ast.stmt) and s_ is not root:
+            # a compound statement "contains" a node only through its header, not through its body
+            heads = [s_]
+            if isinstance(s_, (ast.If, ast.While)):
+                heads = [s_.test]
+            elif isinstance(s_, (ast.For, ast.AsyncFor)):
+                heads = [s_.target, s_.iter]
+            elif isinstance(s_, (ast.With, ast.AsyncWith)):
+                heads = [x for it in s_.items for x in (it.context_expr, it.optional_vars) if x is not None]
+            elif isinstance(s_, ast.Try):
+                heads = []
+            elif isinstance(s_, ast.Match):
+                heads = [s_.subject]
+            elif isinstance(s_, (ast.FunctionDef, ast.AsyncFunctionDef, ast.ClassDef)):
+                heads = list(s_.decorator_list)
+            if any(x is node for h in heads for x in ast.walk(h)):
+                best = s_
+    return best
